@@ -142,10 +142,12 @@ where
         if let Some(shard) = self.shard.take() {
             let mut shard = shard.write();
             match shard.entry(self.hash(), |p| self.key() == p.key(), |p| p.hash()) {
-                HashTableEntry::Occupied(o) => {
+                // Only remove the piece this reference was created for: a newer piece of the same key may have replaced
+                // it in the meantime and must stay visible until its own flush completes.
+                HashTableEntry::Occupied(o) if o.get().ptr_eq(&self.piece) => {
                     o.remove();
                 }
-                HashTableEntry::Vacant(_) => {}
+                HashTableEntry::Occupied(_) | HashTableEntry::Vacant(_) => {}
             }
         }
     }
